@@ -120,7 +120,9 @@ def coq(t):
         if kind == "bool":
             return "(PLit (LBool %s))" % ("true" if v else "false")
         if kind == "temporal":
-            return "(PLit (LTemporal %d%%N ([%s]%%N : list N)))" % (v[0], "; ".join(str(ord(ch)) for ch in v[1]))
+            import re as _re
+            txt = _re.sub(r"([+-]\d\d):(\d\d)$", r"\1\2", v[1]) if v[0] == 2 else v[1]   # the lexer drops the colon of a UTC offset
+            return "(PLit (LTemporal %d%%N ([%s]%%N : list N)))" % (v[0], "; ".join(str(ord(ch)) for ch in txt))
         return "(PLit (LFloat %s %d%%N))" % ("(%d)" % v[0], v[1])
     if k == "bin":
         return "(PBinE B_%s %s %s)" % (t[1], coq(t[2]), coq(t[3]))
